@@ -73,9 +73,9 @@ class Vfs:
             if v[0] == "d":
                 out[k] = {"d": 1}
             elif v[0] == "f":
-                out[k] = {"f": v[1].decode("utf-8", "replace")}
+                out[k] = {"f": v[1].decode("utf-8", "surrogateescape")}  # bytes that are not UTF-8 survive dump / load
             elif v[0] == "p":
-                out[k] = {"p": v[1].decode("utf-8", "replace")}
+                out[k] = {"p": v[1].decode("utf-8", "surrogateescape")}
             else:
                 out[k] = {"l": v[1]}
         return {"cwd": self.cwd, "nodes": out}
@@ -87,9 +87,9 @@ class Vfs:
             if "d" in n:
                 v.nodes[k] = ("d",)
             elif "f" in n:
-                v.nodes[k] = ("f", n["f"].encode("utf-8"))
+                v.nodes[k] = ("f", n["f"].encode("utf-8", "surrogateescape"))
             elif "p" in n:
-                v.nodes[k] = ("p", n["p"].encode("utf-8"))
+                v.nodes[k] = ("p", n["p"].encode("utf-8", "surrogateescape"))
             else:
                 v.nodes[k] = ("l", n["l"])
         return v
